@@ -24,7 +24,6 @@ RULE = ("cases = registry entry (incl. lazy-default and caller-owned-dict varian
         "Non-trivial = configuration resolves a lazy default, passes a caller-owned dict, a pre-fitted model or a wrapper; "
         "distinct by (entry, wrapper, fit mode, weights, n_queries, data, labels, cmode).")
 ASSUMPTIONS = [
-    "with fit_*=False the position of the model's own random_state_ may advance (its public predict draws tie-breaks): not a side effect (DESIGN 5.1)",
     "a write that leaves all bytes, parameters and fitted attributes equal is only visible to the write monitor (constructor parameters)",
 ]
 REQUIRED_MONITORS = ["C05.side-effect-contract", "C05.write-monitor-armed", "C05.read-only-sentinel"]
@@ -132,7 +131,7 @@ def run_case(desc):
     contracts.count("C05.write-monitor-armed")
     arr_before = _arrays_fp(kw)
     qs_before = st.params_fp(qs)
-    mod_before = {k: _model_fp(m, fit_mode == "prefit") for k, m in models.items()}
+    mod_before = {k: _model_fp(m, False) for k, m in models.items()}
     outs = []
     err = None
     # every third case hands the arrays over write-protected: a write inside the package then raises at the writing
@@ -176,7 +175,7 @@ def run_case(desc):
         d = st.diff(qs_before, qs_after)
         add("get_params-changed", "strategy params differ at %s" % [x[0] for x in d][:6])
     for k, m in models.items():
-        after = _model_fp(m, fit_mode == "prefit")
+        after = _model_fp(m, False)
         if after != mod_before[k]:
             d = st.diff(mod_before[k], after) if not isinstance(m, list) else []
             add("model-argument-modified:%s" % k, "model %r changed at %s" % (k, [x[0] for x in d][:6] or "(ensemble member)"))
